@@ -165,6 +165,18 @@ func propSpecs() map[string]*PropSpec {
 			r.modeB(".", "^VX_C12_main_", true, b, "derive")
 			r.ReplayOverride = nil
 		}})
+	concBounds := Bounds{SliceLen: 2, SpareCap: 0, MapLen: 1, StrLen: 1, PtrDepth: 1, Unwind: 7, CallDepth: 4}
+	add(&PropSpec{ID: "C20", Title: "Do runs all functions concurrently and returns every result and an error", Level: "model_checking",
+		Outside: []string{"more than 3 functions", "functions that communicate against spawn order", "stores by the caller to shared cells after a goroutine was spawned"},
+		RunFn: func(r *Runner) { r.modeC("c20", "^VX_C20_", concBounds) }})
+	add(&PropSpec{ID: "C19", Title: "Channel combinators deliver every item exactly once under all schedules", Level: "model_checking",
+		Outside: []string{"more than 2 input channels x 2 items", "capacities above 1", "select with send cases or default"},
+		RunFn: func(r *Runner) {
+			r.modeC("c19", "^VX_C19_(fmap|dup|join)", concBounds)
+			pb := concBounds
+			pb.Unwind = 4 // two items and the close: more iterations would spawn goroutines on infeasible paths
+			r.modeC("c19", "^VX_C19_pipeline", pb)
+		}})
 	add(&PropSpec{ID: "C07", Title: "Regeneration depends only on current sources, not on the old derived file", Level: "other",
 		Outside: []string{"every byte offset k of an interrupted write (three truncation points are replayed)", "edit sequences other than the listed histories", "go/loader and go/parser behaviour on arbitrary broken files"},
 		RunFn: runC07})
